@@ -75,6 +75,36 @@ Definition replay_ok (c : cfg) (pts : list pt) (toks : list tok) : bool :=
       end
   end.
 
+(* ---- accuracy monitor on femto's own file: every G1 of a bare write is within half a unit of the last printed
+   decimal (plus 1e-12 relative for the double-precision rotation) of the exact transformed position of a path
+   point, taken in path order ---- *)
+Definition near (c : cfg) (printed : Z) (exact : Q) : bool :=
+  Qle_bool (Qabs (inject_Z printed / inject_Z SC - exact))
+           ((1 # 2) / inject_Z (pow10 (digits c)) + (1 # 1000000000000) * (1 + Qabs exact)).
+
+Definition g1_near (c : cfg) (t : tok) (p : pt) : bool :=
+  match t with
+  | TG1 _ _ (Some (CNum x)) (Some (CNum y)) (Some (CNum z)) _ _ =>
+      let '(ex, ey, ez) := tr32 (tc c) (px p, py p, pz p) in near c x ex && near c y ey && near c z ez
+  | _ => false
+  end.
+
+Fixpoint acc_ok (fuel : nat) (c : cfg) (g1s : list tok) (pts : list pt) : bool :=
+  match fuel with
+  | O => false
+  | S k =>
+      match g1s, pts with
+      | [], _ => true
+      | _ :: _, [] => false
+      | t :: r, p :: ps => if g1_near c t p then acc_ok k c r ps else acc_ok k c g1s ps
+      end
+  end.
+
+Definition is_g1 (t : tok) : bool := match t with TG1 _ _ _ _ _ _ _ => true | _ => false end.
+
+Definition accuracy_ok (c : cfg) (pts : list pt) (toks : list tok) : bool :=
+  let g := filter is_g1 toks in acc_ok (S (length g + length pts)) c g pts.
+
 Definition check (k : case) : N :=
   match model k with
   | NotWritten kind =>
@@ -89,7 +119,9 @@ Definition check (k : case) : N :=
         (* (with fewer than 4 decimals distinct points may print alike: the replay alignment is then ambiguous
            and only the token-level comparison above applies) *)
         if k_bare k && N.eqb (k_raised k) 0 && (4 <=? digits (k_cfg k)) && forallb (fun p => Z.eqb (ps p) 0 || Z.eqb (ps p) 1) (k_pts k)
-        then replay_ok (k_cfg k) (k_pts k) (k_toks k) else true
+        then replay_ok (k_cfg k) (k_pts k) (k_toks k) else true;
+        if k_bare k && N.eqb (k_raised k) 0 && forallb (fun p => Z.eqb (ps p) 0 || Z.eqb (ps p) 1) (k_pts k)
+        then accuracy_ok (k_cfg k) (k_pts k) (k_toks k) else true
       ]
   end.
 
